@@ -3,7 +3,8 @@
      mem    one atom per member of the store in output order (resources, then datasets):
             0 inline resource, 1 stand-off plain-text resource, 2 stand-off .json resource,
             3 inline dataset, 4 stand-off dataset, 5 stand-off dataset whose file cannot be written,
-            6 stand-off plain-text resource whose file cannot be written (resources first: 0 1 2 6 before 3 4 5)
+            6 stand-off plain-text resource whose file cannot be written, 7 sub-store
+            (sub-stores first, then resources 0 1 2 6, then datasets 3 4 5)
      chg    one atom per member: 1 = the changed flag is set when the threads start
      ops    one entry (kind idx variant) per thread: kind 0 pure reader (variant says which one;
             of no concern to the model), 1 store.to_json_string, 2 ToJson::to_json_string(member idx,
@@ -14,13 +15,14 @@
             8 resource.to_txt_file(<another directory>/<same name>), 9 resource.to_txt_file(<own stand-off filename>),
             10 store.save() of a CBOR-format store (a scenario with such a reader is built as a CBOR store),
             11 ToJson::to_json_string(member, Config with a non-JSON dataformat) (refused), 12 = 11 followed by
-            store.to_json_string on the same thread
+            store.to_json_string on the same thread, 13 store.changed()
      sched  the thread chosen at every scheduling decision of the deterministic scheduler (one
             decision = the chosen thread performs the access it is blocked in front of and runs up to
             its next yield site), as executed by the harness
    one triple per thread: ((tokens) same finished) where tokens = how each member appears in the
    string(s) the thread obtained (2i inline, 2i+1 as @include, -7 end of a call when the thread makes
-   several, -2 the call returned Err), same = equal to the solo result;
+   several, -2 the call returned Err, -8 - never predicted - the call returned Ok while a sub-store file it refers to
+   was not written), same = equal to the solo result;
    then one triple for the stand-off files: per member 1 if, after the run, some call has returned Ok
    with the member written as @include while its stand-off file does not hold the member's content
    (pending content is NOT on disk when the threads start), or something else than content was
@@ -53,6 +55,7 @@ Definition fkind_of (x : sx) : fkind :=
   | 4 => Json
   | 5 => JsonBroken
   | 6 => TxtBroken
+  | 7 => SubStore
   | _ => NoFile
   end.
 
@@ -71,6 +74,7 @@ Definition op_of (x : sx) : op :=
   | 10 => OpSaveCbor
   | 11 => OpRefused i
   | 12 => OpRefusedThenStore i
+  | 13 => OpStoreChanged
   | _ => OpPure
   end.
 
